@@ -103,6 +103,56 @@ def install(it):
         ctx.rewrites = getattr(ctx, "rewrites", []) + [(z3.simplify(t), c)]
     reg("rewrite", rewrite)
 
+    def abstract(it_, ctx, name, term):
+        """generalise: later goals (and hypotheses) see a fresh real constant in place of `term`.
+        Proving the generalised goal proves the original (it is an instance), so this is sound; it
+        keeps non-linear goals small.  Facts about the term must be stated with lemma() BEFORE
+        abstracting if they are to survive."""
+        t = z3.simplify(to_real(lift(term)))
+        v = ctx.fresh("abs_" + name, R)
+        ctx.rewrites = getattr(ctx, "rewrites", []) + [(t, v)]
+        return v
+    reg("abstract", abstract)
+
+    # ---- ghost lemmas: functions with require()/ensure(); verified once on symbolic arguments
+    # (verify_lemma), then instantiated at call sites (require -> obligation, ensure -> assumption)
+    def require(it_, ctx, name, c):
+        mode = getattr(ctx, "lemma_mode", None)
+        if mode == "verify":
+            ctx.assume(it_.truth(c, ctx))
+        else:
+            ctx.prove("%s:%s" % (getattr(ctx, "lemma_name", "lemma"), name), it_.truth(c, ctx))
+            ctx.assume(it_.truth(c, ctx))
+    reg("require", require)
+
+    def ensure(it_, ctx, name, c):
+        mode = getattr(ctx, "lemma_mode", None)
+        if mode == "verify":
+            ctx.prove(name, it_.truth(c, ctx))
+        else:
+            ctx.assume(it_.truth(c, ctx))
+            ctx.lemma_uses = getattr(ctx, "lemma_uses", set()) | {getattr(ctx, "lemma_name", "?")}
+    reg("ensure", ensure)
+
+    def verify_lemma(it_, ctx, fn, *a, **k):
+        saved = getattr(ctx, "lemma_mode", None)
+        ctx.lemma_mode = "verify"
+        try:
+            return it_.call(fn, list(a), k, ctx)
+        finally:
+            ctx.lemma_mode = saved
+    reg("verify_lemma", verify_lemma)
+
+    def use_lemma(it_, ctx, fn, *a, **k):
+        saved = (getattr(ctx, "lemma_mode", None), getattr(ctx, "lemma_name", None))
+        ctx.lemma_mode = "use"
+        ctx.lemma_name = getattr(fn, "name", "lemma")
+        try:
+            return it_.call(fn, list(a), k, ctx)
+        finally:
+            ctx.lemma_mode, ctx.lemma_name = saved
+    reg("use_lemma", use_lemma)
+
     def cover(it_, ctx, name):
         ctx.covers.add(name)
     reg("cover", cover)
